@@ -249,6 +249,57 @@ def check_sequence(case):
     return nt and len(vals) > 1, sorted(labels | {"sequence"} | ({"same-payload-different-type"} if twins else set()))
 
 
+def check_cross(case):
+    """an item stored through one CompressedSerde is read through another one with the same codec and inner serializer but
+    another threshold (or by the inner serializer's flags alone when it was stored plain): what is read does not depend on
+    the reader's threshold - the flags say how the item was stored"""
+    wcfg, rcfg, desc = case
+    v = build(desc)
+    w, r = make_serde(wcfg), make_serde(rcfg)
+    what = "written by %r, read by %r: %s" % (wcfg, rcfg, _short(v))
+    try:
+        payload, flags = w.serialize("key", v)
+    except Exception as e:  # noqa: BLE001
+        raise Violation(["serialize-raises", type(e).__name__, wcfg[0]], "serialize raised %r: %s" % (e, what))
+    try:
+        back = r.deserialize("key", wire(payload), flags)
+    except Exception as e:  # noqa: BLE001
+        raise Violation(["cross-reader", "deserialize-raises", type(e).__name__], "deserialize raised %r: %s" % (e, what))
+    if not same(v, back):
+        raise Violation(["cross-reader", "round-trip", type(v).__name__], "read back as %s (%s): %s" % (_short(back), type(back).__name__, what))
+    compressed = bool(flags & S.FLAG_COMPRESSED)
+    return compressed or type(v) not in (bytes, str), ["cross-reader", "stored-compressed" if compressed else "stored-plain", "reader-threshold=%s" % (rcfg[2] if rcfg[0] == "compressed" else rcfg[0])]
+
+
+CROSS_THRESHOLDS = [0, 1, 10, 400, 10 ** 9, float("inf"), 0.0, False]
+
+
+def cross_cases(tier, seed):
+    values = []
+    for n in (0, 1, 11, 12, 401, 1200):
+        values += [("bytes", b"a" * n), ("noise", n, 1), ("str", "x" * n), ("bigint", max(1, n), 1, 1), ("list", [("int", 1)] * (n // 4))]
+    values += [("int", 0), ("bool", True), ("none",), ("float", 0.5), ("dict", [[("str", "k"), ("bytes", b"v" * 500)]]), ("sub", "MyStr", ("str", "s" * 500), None),
+               ("packed", "zlib", b"z" * 2000), ("bytearray", b"z" * 401), ("str", "\ufeff" + "y" * 450), ("shared", ("bytes", b"z" * 450))]
+    for codec in ("zlib", "bz2") if tier == "quick" else sorted(CODECS):
+        for p in (0, 5):
+            for wl in (1, 10, 400):
+                for rl in CROSS_THRESHOLDS:
+                    for v in values:
+                        yield (("compressed", codec, wl, ("pickle", p)), ("compressed", codec, rl, ("pickle", p)), v)
+    for rl in CROSS_THRESHOLDS:
+        for v in values:
+            yield (("default-compressed",), ("compressed", "zlib", rl, ("pickle", None)), v)
+            yield (("compressed", "zlib", rl, ("pickle", None)), ("module-compressed",), v)
+            yield (("module-pickle",), ("compressed", "zlib", rl, ("pickle", None)), v)
+
+
+def cross_strategy(tier):
+    codec = st.sampled_from(sorted(CODECS))
+    proto = st.one_of(st.integers(0, 5), st.none())
+    return st.builds(lambda c, p, wl, rl, v: (("compressed", c, wl, ("pickle", p)), ("compressed", c, rl, ("pickle", p)), v),
+                     codec, proto, st.sampled_from([0, 1, 10, 400]), st.sampled_from(CROSS_THRESHOLDS), value_strategy())
+
+
 def _check_one(sd, cfg, v, ctx=""):
     what = "%r on %s%s" % (cfg, _short(v), ctx)
     try:
@@ -451,6 +502,9 @@ def sequence_strategy(tier):
 
 PARTS = [
     Part("grid", "enum", check, cases=grid_cases, exhaustive=False),
+    Part("written-by-one-read-by-another", "enum", check_cross, cases=cross_cases),
+    Part("random-writer-and-reader", "hyp", check_cross, strategy=cross_strategy,
+         examples={"quick": 300, "thorough": 20000}, shards={"quick": 4, "thorough": 16}),
     Part("one-serializer-object", "enum", check_sequence, cases=sequence_cases),
     Part("random-sequences", "hyp", check_sequence, strategy=sequence_strategy,
          examples={"quick": 300, "thorough": 12000}, shards={"quick": 4, "thorough": 16}),
